@@ -736,16 +736,39 @@ func genChain(r *rng.R, prof Profile, nextID *int) ChainSpec {
 	ncheck := r.Intn(6)
 	nstat := r.Intn(4)
 	panicOK := prof == ProfC16
+	// long chains (C16 only, 1 chain in 7): 13-24 slots of at least one kind over 2-4 distinct order
+	// values, inserted in shuffled (non-monotone) order. sort.SliceStable and an unstable sort
+	// agree on short slices (Go's sort.Slice is an insertion sort up to 12 elements), so ties
+	// must be exercised on slices longer than that.
+	ords := orderSet
+	big := prof == ProfC16 && r.Chance(1, 7)
+	if big {
+		k := 2 + r.Intn(3)
+		ords = nil
+		for len(ords) < k {
+			ords = append(ords, r.PickI(0, 1, 2, 999, 1000, 1001, 4294967295))
+		}
+		which := 1 + r.Intn(7) // bit set of the kinds that are long; never empty
+		if which&1 != 0 {
+			ncheck = 13 + r.Intn(12)
+		}
+		if which&2 != 0 {
+			nprep = 13 + r.Intn(12)
+		}
+		if which&4 != 0 {
+			nstat = 13 + r.Intn(12)
+		}
+	}
 	nodeOrd := uint32(r.PickI(orderSet...))
 	hasNode := prof == ProfC01 || r.Chance(3, 4)
 	hasReal := prof == ProfC01 || r.Chance(1, 2)
 	f1 := prof == ProfC01 && r.Chance(1, 10) // known-finding class: a prepare slot that may panic before the node is prepared
 	for i := 0; i < nprep; i++ {
-		s := SlotSpec{Kind: "prep", ID: id(), Order: uint32(r.PickI(orderSet...))}
+		s := SlotSpec{Kind: "prep", ID: id(), Order: uint32(r.PickI(ords...))}
 		n := 1 + r.Intn(3)
 		for j := 0; j < n; j++ {
 			k := "ok"
-			if r.Chance(1, 6) {
+			if (!big && r.Chance(1, 6)) || (big && r.Chance(1, 40)) {
 				k = "panic"
 			}
 			s.Behs = append(s.Behs, Beh{K: k})
@@ -753,10 +776,16 @@ func genChain(r *rng.R, prof Profile, nextID *int) ChainSpec {
 		slots = append(slots, s)
 	}
 	for i := 0; i < ncheck; i++ {
-		s := SlotSpec{Kind: "check", ID: id(), Order: uint32(r.PickI(orderSet...))}
+		s := SlotSpec{Kind: "check", ID: id(), Order: uint32(r.PickI(ords...))}
 		n := 1 + r.Intn(4)
 		for j := 0; j < n; j++ {
-			switch x := r.Intn(20); {
+			x := r.Intn(20)
+			if big && r.Chance(3, 4) {
+				// long chains: mostly passing slots, so that long runs of tied slots are executed;
+				// the blocking ones then sit among tied neighbours
+				x = r.Intn(12)
+			}
+			switch {
 			case x < 9:
 				s.Behs = append(s.Behs, Beh{K: "pass"})
 			case x < 12:
@@ -772,11 +801,11 @@ func genChain(r *rng.R, prof Profile, nextID *int) ChainSpec {
 		slots = append(slots, s)
 	}
 	for i := 0; i < nstat; i++ {
-		s := SlotSpec{Kind: "stat", ID: id(), Order: uint32(r.PickI(orderSet...))}
+		s := SlotSpec{Kind: "stat", ID: id(), Order: uint32(r.PickI(ords...))}
 		n := 1 + r.Intn(3)
 		for j := 0; j < n; j++ {
 			k := "ok"
-			if panicOK && r.Chance(1, 8) {
+			if panicOK && ((!big && r.Chance(1, 8)) || (big && r.Chance(1, 40))) {
 				k = "panic"
 			}
 			s.Behs = append(s.Behs, Beh{K: k})
